@@ -660,7 +660,21 @@ func (g *Gen) applyUpdates(st *State, pre *State, env *Env, sp *FuncSpec) {
 		g.n++
 		s := sym(fmt.Sprintf("%s@u!%d", name, g.n))
 		rt := g.P.resolveType(gf.Ret, sp.Pkg)
-		g.emit(fmt.Sprintf("(define-fun %s (%s) %s %s)", s, strings.Join(ps, " "), sortOfKind(kindOf(rt)), body.S))
+		if len(ps) == 0 {
+			g.emit(fmt.Sprintf("(define-fun %s () %s %s)", s, sortOfKind(kindOf(rt)), body.S))
+		} else {
+			// an uninterpreted symbol with a defining equation triggered on its own applications: the new
+			// ghost version can then occur in patterns (a define-fun would be inlined into an ite)
+			var srts, names []string
+			for _, pd := range ps {
+				f := strings.Fields(strings.Trim(pd, "()"))
+				names = append(names, f[0])
+				srts = append(srts, f[1])
+			}
+			app := "(" + s + " " + strings.Join(names, " ") + ")"
+			g.emit(fmt.Sprintf("(declare-fun %s (%s) %s)", s, strings.Join(srts, " "), sortOfKind(kindOf(rt))))
+			g.emit(fmt.Sprintf("(assert (forall (%s) (! (= %s %s) :pattern (%s))))", strings.Join(ps, " "), app, body.S, app))
+		}
 		st.heap.m[name] = s
 	}
 }
@@ -686,4 +700,15 @@ func (g *Gen) havocStructElems(st *State, et types.Type, arr string) {
 		}
 		st.heap.m[lf.name] = nw
 	}
+}
+
+
+func prefixNames(m map[string]string, h string) map[string]bool {
+	out := map[string]bool{}
+	for k := range m {
+		if k == h || strings.HasPrefix(k, h+"#") {
+			out[k] = true
+		}
+	}
+	return out
 }
